@@ -47,6 +47,7 @@ structure World where
   dbAcls   : List (Nat × Acl) := []
   /-- C15: after `restart p n` — (store key, n, full listing persisted before the restart) -/
   limited  : List (Nat × Int × List Nat) := []     -- source peer's entry hashes at sync time
+  partialStores : List Nat := []                  -- stores loaded with a limit below what is persisted (until the next unlimited load)
   /-- C05: per store key, the entries seen listed at rest or acknowledged to their writer: all of
   them are covered by the cached heads, so a clean restart followed by `Load(-1)` must list them -/
   durable  : List (Nat × List Nat) := []
@@ -372,9 +373,19 @@ def World.onObs1 (w : World) (toks : List String) : World :=
   -- a limited load of a multi-head log may keep different older entries than the model's unbounded fetch:
   -- the model then continues from the implementation's listing
   let partialLoad := match lim with | some (_, n, full) => n > 0 && n.toNat < full.length | none => false
-  let (w, s) := if partialLoad then
+  let w := match lim with
+    | some (_, n, _) => if partialLoad then { w with partialStores := w.key p :: w.partialStores.filter (· != w.key p) }
+                        else if n ≤ 0 then { w with partialStores := w.partialStores.filter (· != w.key p) } else w
+    | none => w
+  -- a partially loaded store stays outside the model's exact tracking for as long as it lives (what it
+  -- writes or replicates lands in a log with holes, where go-ipfs-log keeps link indices of the trimmed
+  -- entries): the model continues from the implementation's state, cache included; the L1 predicates
+  -- (recovery at the next unlimited load, cached heads cover the log, limits) still judge it
+  let isPartial := w.partialStores.contains (w.key p)
+  let (w, s) := if partialLoad || isPartial then
       let L : Log := logOfEntries (w.curDb + 1) (w.entriesOf iv)
       let s' := { s with log := { L with heads := w.entriesOf ih }, idx := parseKVs idxS, status := { progress := ist.1, max := ist.2 } }
+      let s' := if isPartial && !partialLoad then { s' with localHeads := cacheField (arg toks "local"), remoteHeads := cacheField (arg toks "remote") } else s'
       (w.setStore p s', s')
     else (w, s)
   let busy := w.inflight.contains (w.key p)
@@ -395,7 +406,7 @@ def World.onObs1 (w : World) (toks : List String) : World :=
   let w := if mv != iv then w.fail "corr" "values" s!"peer {p}: model {showNums mv}, implementation {showNums iv}" else w
   let mh := (sortedHeads s.log).map (·.hash)
   let w := if mh != ih then w.fail "corr" "heads" s!"peer {p}: model {showNums mh}, implementation {showNums ih}" else w
-  let w := if s.log.entries.length != ilen then w.fail "corr" "len" s!"peer {p}: model {s.log.entries.length}, implementation {ilen}" else w
+  let w := if s.log.entries.length != ilen && !isPartial then w.fail "corr" "len" s!"peer {p}: model {s.log.entries.length}, implementation {ilen}" else w
   let w := if s.localHeads != ilocal then w.fail "corr" "local" s!"peer {p}: model {s.localHeads.map showNums}, implementation {arg toks "local"}" else w
   let w := if s.remoteHeads != iremote then w.fail "corr" "remote" s!"peer {p}: model {s.remoteHeads.map showNums}, implementation {arg toks "remote"}" else w
   let w := if (s.status.progress, s.status.max) != ist then w.fail "corr" "status" s!"peer {p}: model {s.status.progress}/{s.status.max}, implementation {arg toks "status"}" else w
@@ -434,7 +445,7 @@ def World.onObs1 (w : World) (toks : List String) : World :=
       let w := if !(w.acl.canAppend e) || e.key != e.ident || !e.identOk || !e.sigOk then
         w.fail "C03" "member" s!"peer {p}: e{e.hash} (ident {e.ident}, key {e.key}) is visible but not authored by an authorised writer" else w
       if e.logId != w.curDb + 1 || !e.hashOk then w.fail "C04" "member" s!"peer {p}: e{e.hash} is visible but tampered or written for another database" else w) w
-  let w := if iv.length != ilen || !(iv.all (fun h => h != 0)) then w.fail "C04" "shape" s!"peer {p}: Len()={ilen} but {iv.length} entries listed ({arg toks "values"})" else w
+  let w := if (iv.length != ilen && !isPartial) || !(iv.all (fun h => h != 0)) then w.fail "C04" "shape" s!"peer {p}: Len()={ilen} but {iv.length} entries listed ({arg toks "values"})" else w
   -- C01: same entry set ⇒ same state
   let key := sortNums iv
   let stateS := s!"values={showNums iv} heads={showNums ih} idx={idxS}"
@@ -608,7 +619,8 @@ def World.onRestarted (w : World) (toks : List String) : World :=
   let dur := w.durableOf (w.key p)
   let w := if amount ≤ 0 && !w.faulty && r == "ok" then { w with mustRecover := (w.key p, dur) :: w.mustRecover.filter (fun (x : Nat × List Nat) => x.1 != w.key p) }
            else { w with mustRecover := w.mustRecover.filter (fun (x : Nat × List Nat) => x.1 != w.key p) }
-  let w := if amount > 0 then w.setDurable (w.key p) [] else w
+  -- (what was listed or acknowledged before a LIMITED load stays owed: the next unlimited load must
+  -- bring it back, whatever was written or replicated on the partially loaded store in between)
   match s.load w.acl w.fetchAll amount with
   | .ok s' =>
     let w := { w.setStore p s' with resync := w.key p :: w.resync }
